@@ -722,11 +722,8 @@ func evalListIndexValue(node *Identifier, env *Environment) (int64, Object) {
 }
 
 func evalMapIndexValue(node *Identifier, env *Environment) (string, Object) {
-	obj := evalIdentifier(node, env, false)
-	if isError(obj) {
-		return "", obj
-	}
-
+	// the name of a map member is not looked up as an attribute of the item: a #name whose target
+	// contains a dot ("example.com") is the key of the member, whatever attributes the item has
 	name := node.Token.Literal
 	if alias, ok := env.Aliases[name]; ok {
 		return alias, nil
